@@ -169,6 +169,22 @@ def body(case, rec):
             raise Violation(f"--no-clobber: exit status 0 although {S} already existed")
         if not any(str(outd / n) in msg for n in S):
             raise Violation(f"--no-clobber: error output names none of the colliding files {S}: {msg[-300:]!r}")
+        # ---- the same process runs the command again with --no-clobber --no-write-log over the files of a run that wrote
+        # a log (its logging set-up is still in place, as after any cli() call): nothing of that run may change
+        if case["write_log"] and not sub and case.get("rerun_over_own_outputs", True):
+            wipe(outd)
+            r_first = remap.run_cli_inprocess([str(a) for a in args], keep_logging_state=True)
+            if r_first.exit_code == 0:
+                before = {f.name: (f.read_bytes(), f.stat().st_mtime_ns) for f in sorted(outd.iterdir())}
+                r_second = remap.run_cli_inprocess([str(a) for a in args if a != "--write-log"] + ["--no-write-log", "--no-clobber"])
+                after = {f.name: (f.read_bytes(), f.stat().st_mtime_ns) for f in sorted(outd.iterdir())}
+                for n, v in before.items():
+                    if after.get(n) != v:
+                        raise Violation(f"--no-clobber --no-write-log run in the same process over the files of an earlier run: {n} was altered")
+                if r_second.exit_code == 0:
+                    raise Violation("--no-clobber: exit status 0 although every output file of the earlier run existed")
+            else:
+                remap.run_cli_inprocess(["--help"])  # (resets the logging state)
         # ---- no-clobber with bystanders only: files in the output directory that this run does not write (reports of an
         # earlier curation of the same specimen, notes) - nothing collides, and they must be left exactly as they are
         cands = ["x.2.chr_report.csv", "README.txt", "x.1.log", "x.2.log.bak"] + [n.split(".curated.")[0] + ".chromosome.list.csv" for n in names if ".curated." in n]
